@@ -486,6 +486,8 @@ func (s *Server) Clear() {
 	// we do not drain InitDoneChannel, because Init is only done once during rapid lifetime
 
 	drainChannel(s.InvokeDoneChan)
+	// an init error belongs to the runtime domain generation that was just reset
+	s.setCachedInitErrorResponse(nil)
 	s.Release()
 }
 
